@@ -397,6 +397,8 @@ def gen_faults(rng, prof, config):
             item['trigger'] = {'state': pick(rng, prof.get('trigger_states', TRIGGER_STATES)), 'inst': '*',
                                'delay': round(rng.uniform(0.0, 4.0), 3), 'after': round(rng.uniform(0.0, t0), 3),
                                'before': t1 - 5.0}
+            if prof.get('trigger_delays'):
+                item['trigger']['delay'] = pick(rng, prof['trigger_delays'])
             victim = pick(rng, prof.get('victim_pool') or ['$trigger', '$master', '$nonmaster', pick(rng, nicks)])
         else:
             item['t'] = round(rng.uniform(t0, t1), 3)
